@@ -66,7 +66,7 @@ func (t *ty) sexp() sx.Sexp {
 			xs[i] = sx.Str(s)
 		}
 		return sx.T("enum", xs...)
-	case "arr", "opt", "var":
+	case "arr", "opt", "var", "nu":
 		if t.tag == "arr" && t.lo != nil {
 			return sx.T("arrn", t.kids[0].sexp(), bs(t.lo), bs(t.hi))
 		}
@@ -692,6 +692,7 @@ func gen(g *core.G) {
 	}
 	genCalls(g)
 	genNewM(g)
+	genWrap(g)
 	genNewC(g)
 	genNew(g)
 }
